@@ -191,7 +191,14 @@ def spectra(rng, pair, kinds=None):
   out.append(('random-masked', rng.standard_normal((R, L)) * mask))
   out.append(('random-unmasked', rng.standard_normal((R, L))))
   out.append(('random-batch3', rng.standard_normal((3, R, L)) * mask))
-  out.append(('random-batch22', rng.standard_normal((2, 2, R, L)) * mask))
+  # domain statement: with an spmd_mesh the stack / unstack / derivative helpers of FastSphericalHarmonics accept only
+  # (m, l) or (level, m, l) arrays (`assert x.ndim in {2, 3}`: the shard_map specs name exactly the z, x, y axes), so a
+  # field with two leading axes is rejected loudly there (AssertionError) and is outside the comparison; without a mesh
+  # any number of leading axes is accepted and compared
+  if not pair.opts.get('mesh'):
+    out.append(('random-batch22', rng.standard_normal((2, 2, R, L)) * mask))
+  else:
+    out.append(('random-batch5', rng.standard_normal((5, R, L)) * mask))
   if kinds is not None:
     out = [o for o in out if o[0] in kinds]
   return out
